@@ -13,7 +13,7 @@ Not decided: "verifies iff the last signer's key" over histories (runtime keys /
 import re
 from engine import op_place, proj_key, place_str
 from terms import TermBuilder, render, strip_proj
-from common import switch_info, err_assign_blocks, reach_from, ok_assign_blocks, fmt_key
+from common import switch_info, err_assign_blocks, reach_from, ok_assign_blocks, fmt_key, call_leaves
 
 MUTATORS = ["Package::sign", "Package::sign_with_timestamp", "Package::clear_signatures"]
 # OpenPGP public-key algorithm ids (RFC 4880 / 9580)
@@ -219,6 +219,20 @@ def run(f, fixture, rep, cfg, tier):
             operand = a if b2 == "1_usize" else b2
             const_ok = "1_usize" in (a, b2)
             fresh = operand.startswith("std::vec::Vec::<T, A>::len(std::iter::Iterator::collect(std::iter::Iterator::map(pgp::Signature::issuer(")
+            if not fresh and operand.startswith("std::vec::Vec::<T, A>::len(") and "pgp::Signature::issuer(" in operand:
+                # built with a loop instead of map/collect: the tested vector must be created after this signature was parsed
+                # (an accumulator that lives across signatures is created before) and filled from issuer() only
+                rvg = info["stmt"]["rv"]
+                lenop = rvg["a"] if b2 == "1_usize" else rvg["b"]
+                parses = [c for c in kb.calls() if c.decl.endswith("Verifier::parse_signature") and kb.dominates(c.bb, sbk)]
+                ctors = set()
+                for lc in call_leaves(kb, lenop):
+                    if lc.decl.endswith("Vec::<T, A>::len"):
+                        for l3 in kb.origins(lc.args[0]):
+                            if l3["kind"] == "call":
+                                ctors.add(l3["call"])
+                fresh = bool(ctors) and bool(parses) and all(any(kb.dominates(p_.bb, c_.bb) for p_ in parses) for c_ in ctors) and \
+                    len({p_[:80] for p_ in operand.split("pgp::Signature::issuer(")[1:]}) == 1
             branch = "openpgp" if "Base64Decoder" in operand or "RPMSIGTAG_OPENPGP" in operand or not fresh and i == 0 else "legacy"
             rep.check(const_ok and fresh, "R4", "guard|%s" % branch, "the %s branch tests the issuer count of the signature just parsed" % branch,
                       "the %s branch's UnexpectedIssuerCount guard tests %s - not the issuer ids of the signature just parsed" % (branch, operand[:200]),
